@@ -743,8 +743,12 @@ func genMix(rng *rand.Rand, seed int64) *Scenario {
 		sc.WatchDrop = 0.3
 	}
 	end := 30 * h
+	twoGroups := n >= 2 && rng.Intn(4) == 0
 	for i := 1; i <= n; i++ {
 		is := InstSpec{ID: i, Group: "g", TTL: ttl, H: h}
+		if twoGroups && i%2 == 0 {
+			is.Group = "h" // a second election group in the same bucket
+		}
 		if rng.Intn(3) == 0 {
 			is.Prio = rng.Intn(4)
 			is.Takeover = is.Prio > 0 && rng.Intn(3) > 0
@@ -795,9 +799,9 @@ func genMix(rng *rand.Rand, seed int64) *Scenario {
 		case 6:
 			sc.Steps = append(sc.Steps, Step{At: at, Kind: "validate-or-demote", Inst: i})
 		case 7:
-			sc.Steps = append(sc.Steps, Step{At: at, Kind: "extput", Key: "g", Bytes: tamperValues[rng.Intn(len(tamperValues))]})
+			sc.Steps = append(sc.Steps, Step{At: at, Kind: "extput", Key: sc.Insts[i-1].Group, Bytes: tamperValues[rng.Intn(len(tamperValues))]})
 		case 8:
-			sc.Steps = append(sc.Steps, Step{At: at, Kind: "extdelete", Key: "g"})
+			sc.Steps = append(sc.Steps, Step{At: at, Kind: "extdelete", Key: sc.Insts[i-1].Group})
 		case 9, 10:
 			if sc.Insts[i-1].ConnMon {
 				sc.Steps = append(sc.Steps, Step{At: at, Kind: []string{"disconnect", "reconnect", "closed"}[rng.Intn(3)], Inst: i})
